@@ -4,6 +4,8 @@
 // build tag every function is an empty stub that the compiler inlines away.
 package verifhook
 
+import "time"
+
 // Enabled reports whether the binary was built with verification hooks.
 func Enabled() bool { return false }
 
@@ -12,3 +14,6 @@ func Point(label string) {}
 
 // Publish hands a value constructed inside production code to a harness.
 func Publish(name string, v any) {}
+
+// DurationOr returns def; the verif build lets the environment override it.
+func DurationOr(env string, def time.Duration) time.Duration { return def }
